@@ -540,7 +540,7 @@ func (d *Def) setDefineMethodT(
 	defineRow int,
 ) {
 
-	key := ctx.GetFrame() + ctx.GetClass() + methodT.GetMethodName()
+	key := base.SignatureKey(ctx.GetFrame(), ctx.GetClass(), methodT.GetMethodName(), ctx.IsDefineStatic)
 
 	switch ctx.IsDefineStatic {
 	case true:
@@ -552,8 +552,6 @@ func (d *Def) setDefineMethodT(
 			p.FileName,
 			defineRow,
 		)
-
-		key += "static"
 
 	default:
 		// this proccess for not instance variable override check
